@@ -36,7 +36,7 @@ pub fn literal(v: &J) -> String {
             "q25n" => "0.25000000000000006".into(),
             "p53" => "9007199254740992.0".into(), "p53b" => "9007199254740994.0".into(),
             "p63" => "9223372036854775808.0".into(), "n63" => "(0.0 - 9223372036854775808.0)".into(),
-            "nan" => "('NaN'::real)".into(), "pinf" => "('inf'::real)".into(), "ninf" => "('-inf'::real)".into(),
+            "nan" => "('NaN'::real)".into(), "nnan" => "('-NaN'::real)".into(), "pinf" => "('inf'::real)".into(), "ninf" => "('-inf'::real)".into(),
             _ => "('-0.0'::real)".into()
         },
         "bool" => if v["v"].as_bool().unwrap() { "TRUE".into() } else { "FALSE".into() },
